@@ -1,13 +1,29 @@
 import FormulaicVerif.Proofs.C20
+import FormulaicVerif.Proofs.C20Entry
+import FormulaicVerif.Proofs.C20Sem
+import FormulaicVerif.Proofs.C20Mat
 import Mathlib.Algebra.Ring.Basic
 import Mathlib.Tactic.Ring
 /-! # C20 — Formula differentiation is the term-wise partial derivative
 
-Property theorems only; helper lemmas are in `Proofs/C20.lean`. Every `theorem` in this file is
-an obligation that the check audits with `#print axioms`. -/
+Property theorems only; helper lemmas are in `Proofs/C20*.lean`; the reference notions (`dFactors`,
+`dMany`, `render`, `dTerms`; `evalProd`, `evalD`, `shift`, `fdMany`; `rowEnv`, `termCol`, `Covers`,
+`vars`, `scaleT`, `specCols`) are in `Spec/Derivative.lean`, `Spec/DerivativeSem.lean`,
+`Spec/NumericMatrix.lean`. Every `theorem` in this file is an obligation that the check audits with
+`#print axioms`.
+
+The theorems are about the functions the `c20` engine runs: `Model.differentiateTerm` /
+`Model.Calc.diffTerm` (`differentiate_term`), `Model.Calc.Simple.differentiate`
+(`SimpleFormula.differentiate`, any ordering, any edit history through `Model.SFm`),
+`Model.Calc.differentiate` (`StructuredFormula.differentiate`), `Model.Calc.differentiateSpecs`
+(`ModelSpec(s).differentiate`) and `Model.CalcMat.materialize` (the C02 model of
+`_build_model_matrix` on a numeric factor cache). -/
 
 namespace FormulaicVerif.Props.C20
 open FormulaicVerif.Model FormulaicVerif.Spec FormulaicVerif.Proofs.C20
+open FormulaicVerif.Model.CalcMat FormulaicVerif.Spec.NumMat FormulaicVerif.Spec.Containers
+
+/-! ## 1. `differentiate_term` -/
 
 /-- C20.1a  Each term is replaced by its (successive) partial derivative, written as `0`, `1`
 or the remaining factors; no error is possible on well-formed terms. -/
@@ -36,118 +52,395 @@ theorem diff_length (f : List Term) (wrt : List String) (h : ∀ t ∈ f, Term.W
     ∃ g, differentiateFormula f wrt = .ok g ∧ g.length = f.length := by
   exact ⟨_, diff_termwise f wrt h, by simp⟩
 
+/-- C20.1c  Without sympy a factor is ONE symbol — its complete expression string. A variable that
+only occurs inside the code of a Python factor (`a` in `I(a ** 2)`, `x` in `log(x)`) is not found:
+if no factor of the term IS the variable, the derivative is `0` (no exception), whatever follows. -/
+theorem atomic_factor_zero (t : Term) (v : String) (vs : List String) (h : ∀ f ∈ t, f.expr ≠ v) :
+    differentiateTerm t (v :: vs) = .ok [litZero] := by
+  have hf : t.filter (fun f => f.expr == v) = [] := by
+    rw [List.filter_eq_nil_iff]
+    intro f hf
+    simpa using h f hf
+  simp [differentiateTerm, diffLoop, diffStep, hf]
+
+/-- C20.1d  … and differentiating with respect to the complete string of a factor removes exactly
+that factor (`1` if nothing remains). -/
+theorem whole_factor_removed (t : Term) (f : Factor) (h : Term.WF t) (hf : f ∈ t) :
+    differentiateTerm t [f.expr] = .ok (render (some (t.filter (fun g => !(g.expr == f.expr))))) := by
+  rw [diff_term_is_partial t _ h]
+  have : t.any (fun g => g.expr == f.expr) = true := List.any_eq_true.mpr ⟨f, hf, by simp⟩
+  simp [dMany, dFactors, this]
+
+/-- non-vacuity / the documented behaviour on Python factors: `I(a ** 2):b` -/
+example :
+    differentiateTerm [⟨"I(a ** 2)", .python⟩, ⟨"b", .lookup⟩] ["a"] = .ok [litZero] ∧
+    differentiateTerm [⟨"I(a ** 2)", .python⟩, ⟨"b", .lookup⟩] ["I(a ** 2)"] = .ok [⟨"b", .lookup⟩] ∧
+    differentiateTerm [⟨"log(x)", .python⟩] ["log(x)"] = .ok [litOne] := by
+  refine ⟨by decide, by decide, by decide⟩
+
+/-- C20.1e  `use_sympy=True` where sympy cannot be imported: the call raises `ImportError` exactly
+when there is a variable to differentiate by and the term has a factor; otherwise the loop body
+never asks sympy and the result is the plain one. -/
+theorem sympy_missing (t : Term) (wrt : List String) :
+    (wrt ≠ [] → t ≠ [] → Calc.diffTerm false true t wrt = .error .importError) ∧
+    (wrt = [] → Calc.diffTerm false true t wrt = .ok (render (dMany (some t) []))) ∧
+    (wrt ≠ [] → t = [] → Calc.diffTerm false true t wrt = .ok [litZero]) := by
+  refine ⟨?_, ?_, ?_⟩
+  · intro hw ht
+    cases wrt with
+    | nil => exact absurd rfl hw
+    | cons v vs =>
+      cases t with
+      | nil => exact absurd rfl ht
+      | cons f r => rfl
+  · intro hw
+    subst hw
+    cases t <;> rfl
+  · intro hw ht
+    subst ht
+    cases wrt with
+    | nil => exact absurd rfl hw
+    | cons v vs => rfl
+
+/-- C20.1e'  … on a whole formula: `SimpleFormula.differentiate(*wrt, use_sympy=True)` without sympy
+raises `ImportError` as soon as there is a variable and some term has a factor; with no variable it
+returns the formula's terms unchanged (a factor-less term as `1`), ordering NONE. -/
+theorem sympy_missing_formula (f : Calc.Simple) (wrt : List String) :
+    (wrt ≠ [] → (∃ t ∈ f.terms, t ≠ []) → f.differentiate false true wrt = .error .importError) ∧
+    (wrt = [] → f.differentiate false true wrt = .ok ⟨.none, dTerms f.terms []⟩) := by
+  refine ⟨?_, ?_⟩
+  · intro hw ht
+    cases wrt with
+    | nil => exact absurd rfl hw
+    | cons v vs => simp [Calc.Simple.differentiate, diffTerms_sympy_missing f.terms v vs ht]
+  · intro hw
+    subst hw
+    simp [Calc.Simple.differentiate, diffTerms_sympy_nowrt, Calc.Simple.new, SFm.init, SFm.reorder]
+
+/-- C20.1f  The plain call (`use_sympy=False`) does not depend on whether sympy is installed. -/
+theorem diff_term_plain (sympy : Bool) (t : Term) (wrt : List String) (h : Term.WF t) :
+    Calc.diffTerm sympy false t wrt = .ok (render (dMany (some t) wrt)) :=
+  diffTerm_plain sympy t wrt h
+
+/-! ## 2. Every entry point, every ordering, every history -/
+
+/-- C20.2a  `SimpleFormula.differentiate` on ANY state of the object (whatever `_ordering` it was
+built with and whatever was done to it since): the result is a formula with ordering NONE whose
+i-th term is the derivative of the i-th term — same number, same order. -/
+theorem simple_differentiate_termwise (sympy : Bool) (f : Calc.Simple) (wrt : List String)
+    (h : ∀ t ∈ f.terms, Term.WF t) :
+    ∃ d, f.differentiate sympy false wrt = .ok d ∧ d.ordering = .none ∧ d.terms = dTerms f.terms wrt ∧
+      d.terms.length = f.terms.length ∧
+      ∀ i (hi : i < f.terms.length), d.terms[i]? = some (render (dMany (some f.terms[i]) wrt)) := by
+  refine ⟨⟨.none, dTerms f.terms wrt⟩, ?_, rfl, rfl, by simp [dTerms], ?_⟩
+  · simp [Calc.Simple.differentiate, diffTerms_plain sympy f.terms wrt h, Calc.Simple.new, SFm.init,
+      SFm.reorder]
+  · intro i hi
+    simp [dTerms, hi]
+
+/-- C20.2b  … in particular for every `_ordering` option and every history of sequence operations
+(`insert`, `__setitem__`, `__delitem__`, slices, `append`, `extend`, `pop`, `reverse`, failed ones
+included): the object still holds products of distinct factors, and its derivative is the
+term-wise derivative of the term list it holds NOW, in that order. -/
+theorem history_differentiate_termwise (sympy : Bool) (o : SFm.Ordering) (l0 : List Term)
+    (ops : List SFm.Op) (wrt : List String)
+    (h0 : ∀ t ∈ l0, Term.WF t) (hops : ∀ op ∈ ops, OpWF op) :
+    let f := (Calc.Simple.new o l0).edit ops
+    (∀ t ∈ f.terms, Term.WF t) ∧
+      f.differentiate sympy false wrt = .ok ⟨.none, dTerms (SFm.run o (SFm.init o l0) ops) wrt⟩ := by
+  intro f
+  have hwf : ∀ t ∈ f.terms, Term.WF t := run_wf o ops _ (reorder_wf o l0 h0) hops
+  refine ⟨hwf, ?_⟩
+  obtain ⟨d, hd, ho, ht, _⟩ := simple_differentiate_termwise sympy f wrt hwf
+  rw [hd]
+  cases d with
+  | mk od td =>
+    simp only at ho ht
+    subst ho
+    rw [ht]
+    rfl
+
+/-- C20.2b'  A slice `f[a:b]` of any such object is again a formula of the same ordering holding
+products of distinct factors, so its derivative is the term-wise derivative of the terms it holds. -/
+theorem slice_differentiate_termwise (sympy : Bool) (f : Calc.Simple) (a b : Int) (wrt : List String)
+    (h : ∀ t ∈ f.terms, Term.WF t) :
+    (∀ t ∈ (f.slice a b).terms, Term.WF t) ∧
+      (f.slice a b).differentiate sympy false wrt = .ok ⟨.none, dTerms (f.slice a b).terms wrt⟩ := by
+  have hwf : ∀ t ∈ (f.slice a b).terms, Term.WF t := by
+    apply reorder_wf
+    exact AllWF.sublist h ((List.drop_sublist _ _).trans (List.take_sublist _ _))
+  refine ⟨hwf, ?_⟩
+  obtain ⟨d, hd, ho, ht, _⟩ := simple_differentiate_termwise sympy (f.slice a b) wrt hwf
+  rw [hd]
+  cases d with
+  | mk od td => simp only at ho ht; subst ho; subst ht; rfl
+
+/-- non-vacuity: `Formula('a:b + c:d - 1', _ordering='sort')`, then `append(Term(b:a:e))`,
+differentiated w.r.t. `a`: `[b, 0, b:e]` — the zero stays where its term is -/
+example :
+    ((Calc.Simple.new .sort [[⟨"a", .lookup⟩, ⟨"b", .lookup⟩], [⟨"c", .lookup⟩, ⟨"d", .lookup⟩]]).edit
+        [.append (some [⟨"b", .lookup⟩, ⟨"a", .lookup⟩, ⟨"e", .lookup⟩])]).differentiate false false ["a"]
+      = .ok ⟨.none, [[⟨"b", .lookup⟩], [litZero], [⟨"b", .lookup⟩, ⟨"e", .lookup⟩]]⟩ := by decide
+
+example : OpWF (.append (some [⟨"b", .lookup⟩, ⟨"a", .lookup⟩, ⟨"e", .lookup⟩])) := by
+  simp only [OpWF, OptWF]; decide
+
+/-- C20.2c  `StructuredFormula.differentiate` is part-wise: the result is the `_map` of the
+structure (C19: same keys, same tuple lengths, `root` key last) whose every part is the term-wise
+derivative of the corresponding part; as a list of parts (for a structure that came out of a
+constructor) it is the list of the parts' derivatives, in `_flatten` order. -/
+theorem structured_differentiate_partwise (sympy : Bool) (v : Calc.FormulaV) (wrt : List String)
+    (h : ∀ f ∈ St.flatten v, ∀ t ∈ f.terms, Term.WF t) :
+    let g : Calc.Simple → Calc.Simple := fun f => ⟨.none, dTerms f.terms wrt⟩
+    Calc.differentiate sympy false v wrt = .ok (St.mapV (fun f _ => g f) [] v) ∧
+    St.shape (St.mapV (fun f _ => g f) [] v) = St.shape (St.norm v) ∧
+    (RootLast v → St.flatten (St.mapV (fun f _ => g f) [] v) = (St.flatten v).map g) := by
+  intro g
+  refine ⟨?_, FormulaicVerif.Proofs.C19.shape_mapV _ v [], ?_⟩
+  · apply mapE_ok
+    intro f hf
+    obtain ⟨d, hd, ho, ht, _⟩ := simple_differentiate_termwise sympy f wrt (h f hf)
+    rw [hd]
+    cases d with
+    | mk od td => simp only at ho ht; subst ho; subst ht; rfl
+  · intro hr
+    rw [FormulaicVerif.Proofs.C19.flatten_mapV, FormulaicVerif.Proofs.C19.norm_of_rootLast v hr,
+      ← FormulaicVerif.Proofs.C19.flattenP_fst v [], List.map_map]
+    rfl
+
+/-- C20.2d  `ModelSpec.differentiate` / `ModelSpecs.differentiate`: every spec gets the term-wise
+derivative of its formula and NO structure (the structure described the original columns). -/
+theorem specs_differentiate_partwise (sympy : Bool) (v : St.Val Calc.Spec) (wrt : List String)
+    (h : ∀ s ∈ St.flatten v, ∀ t ∈ s.formula.terms, Term.WF t) :
+    let g : Calc.Spec → Calc.Spec := fun s => ⟨⟨.none, dTerms s.formula.terms wrt⟩, false⟩
+    Calc.differentiateSpecs sympy false v wrt = .ok (St.mapV (fun s _ => g s) [] v) ∧
+    (RootLast v → St.flatten (St.mapV (fun s _ => g s) [] v) = (St.flatten v).map g) := by
+  intro g
+  refine ⟨?_, ?_⟩
+  · apply mapE_ok
+    intro s hs
+    obtain ⟨d, hd, ho, ht, _⟩ := simple_differentiate_termwise sympy s.formula wrt (h s hs)
+    simp only [Calc.Spec.differentiate, hd]
+    cases d with
+    | mk od td => simp only at ho ht; subst ho; subst ht; rfl
+  · intro hr
+    rw [FormulaicVerif.Proofs.C19.flatten_mapV, FormulaicVerif.Proofs.C19.norm_of_rootLast v hr,
+      ← FormulaicVerif.Proofs.C19.flattenP_fst v [], List.map_map]
+    rfl
+
+/-- C20.2e  One part that raises makes the whole structured call raise (no partial result). -/
+theorem structured_error_propagates (sympy useSympy : Bool) (v : Calc.FormulaV) (wrt : List String)
+    (h : ∃ f ∈ St.flatten v, ∃ e, f.differentiate sympy useSympy wrt = .error e) :
+    ∃ e, Calc.differentiate sympy useSympy v wrt = .error e :=
+  mapE_error _ v h
+
+/-- non-vacuity: `y ~ a:b | a` (lhs, rhs = 2-tuple) satisfies the hypotheses of C20.2c and is `RootLast` -/
+example :
+    let v : Calc.FormulaV := .node [("lhs", .leaf ⟨.degree, [[⟨"y", .lookup⟩]]⟩),
+      ("rhs", .tup [.leaf ⟨.degree, [[⟨"a", .lookup⟩, ⟨"b", .lookup⟩]]⟩, .leaf ⟨.degree, [[⟨"a", .lookup⟩]]⟩])]
+    (∀ f ∈ St.flatten v, ∀ t ∈ f.terms, Term.WF t) ∧ RootLast v ∧
+      Calc.differentiate false false v ["a"] = .ok (.node [("lhs", .leaf ⟨.none, [[litZero]]⟩),
+        ("rhs", .tup [.leaf ⟨.none, [[⟨"b", .lookup⟩]]⟩, .leaf ⟨.none, [[litOne]]⟩])]) := by
+  refine ⟨by decide, ?_, rfl⟩
+  simp [RootLast, RootLastI, RootLastT, St.rootLast, St.isRootKey]
+
+/-- C20.2f  The constants of the code that the property text depends on, read off the live package
+by `harness/translate.py` (`Gen/Calculus.lean`), are the ones the model uses: the literal terms
+written for `0` and `1`, the complete list of `_ordering` options, and `NONE` as the ordering of
+every derivative (the order-preservation mechanism). A source change to any of them changes this
+statement. (The exception classes and the default ordering are also generated, but only name
+observables in the engine; nothing is claimed about them.) -/
+theorem gen_constants :
+    Gen.Calculus.zeroTerm = [(litZero.expr, Calc.evalName litZero.eval)] ∧
+    Gen.Calculus.oneTerm = [(litOne.expr, Calc.evalName litOne.eval)] ∧
+    Gen.Calculus.orderingMethods.map (·.2) = [SFm.Ordering.none, .degree, .sort].map Calc.orderingName ∧
+    Gen.Calculus.derivativeOrdering = Calc.orderingName .none := by
+  decide
+
+/-! ## 3. Values: exact finite differences -/
+
 section semantics
 variable {R : Type} [CommRing R]
 
-/-- value of a product of factors under an assignment of values to factor expressions -/
-def evalProd (env : String → R) : List Factor → R
-  | [] => 1
-  | f :: r => env f.expr * evalProd env r
-
-def evalD (env : String → R) : Option (List Factor) → R
-  | none => 0
-  | some fs => evalProd env fs
-
-def shift (env : String → R) (v : String) (h : R) : String → R :=
-  fun k => if k = v then env k + h else env k
-
-omit [CommRing R] in
-private theorem evalProd_shift_absent [CommRing R] (env : String → R) (v : String) (h : R) (fs : List Factor)
-    (hv : v ∉ fs.map (·.expr)) : evalProd (shift env v h) fs = evalProd env fs := by
-  induction fs with
-  | nil => rfl
-  | cons f r ih =>
-    simp only [List.map_cons, List.mem_cons, not_or] at hv
-    simp only [evalProd, ih hv.2, shift]
-    have : f.expr ≠ v := fun e => hv.1 e.symm
-    simp [this]
-
-/-- C20.2  For a term that is multilinear (distinct factors), the exact finite difference in the
+/-- C20.3a  For a term that is multilinear (distinct factors), the exact finite difference in the
 variable `v` with any step `h` is `h` times the value of the derivative term — in every
 commutative ring, so in particular for integer, rational and real data. -/
 theorem diff_is_finite_difference (env : String → R) (v : String) (h : R) (fs : List Factor)
     (hwf : Term.WF fs) :
-    evalProd (shift env v h) fs - evalProd env fs = h * evalD env (dFactors fs v) := by
-  induction fs with
-  | nil => simp [evalProd, dFactors, evalD]
-  | cons f r ih =>
-    have hn : (f.expr :: r.map (·.expr)).Nodup := by simpa [Term.WF] using hwf
-    rw [List.nodup_cons] at hn
-    have ihr := ih (by simpa [Term.WF] using hn.2)
-    by_cases hf : f.expr = v
-    · -- v is the head factor; it does not occur in the tail
-      have habs : v ∉ r.map (·.expr) := hf ▸ hn.1
-      have hfil : r.filter (fun g => !(g.expr == v)) = r := by
-        rw [List.filter_eq_self]
-        intro g hg
-        have : g.expr ≠ v := fun e => habs (e ▸ List.mem_map_of_mem hg)
-        simp [this]
-      simp only [evalProd, evalProd_shift_absent env v h r habs, dFactors, List.any_cons, hf,
-        beq_self_eq_true, Bool.true_or, if_true, List.filter_cons, Bool.not_true, evalD, hfil]
-      simp only [shift, if_true]
-      simp
-      ring
-    · have hsh : shift env v h f.expr = env f.expr := by simp [shift, hf]
-      simp only [evalProd, hsh]
-      have hb : (f.expr == v) = false := by simpa using hf
-      by_cases ha : r.any (fun g => g.expr == v) = true
-      · simp only [dFactors, ha, if_true, evalD] at ihr
-        simp only [dFactors, List.any_cons, hb, Bool.false_or, ha, if_true, List.filter_cons,
-          Bool.not_false, evalD, evalProd]
-        have : env f.expr * evalProd (shift env v h) r - env f.expr * evalProd env r
-            = env f.expr * (evalProd (shift env v h) r - evalProd env r) := by ring
-        rw [this, ihr]; ring
-      · simp only [dFactors, ha, evalD] at ihr
-        simp only [dFactors, List.any_cons, hb, Bool.false_or, ha, evalD]
-        have : env f.expr * evalProd (shift env v h) r - env f.expr * evalProd env r
-            = env f.expr * (evalProd (shift env v h) r - evalProd env r) := by ring
-        rw [this, ihr]; simp
+    evalProd (shift env v h) fs - evalProd env fs = h * evalD env (dFactors fs v) :=
+  fd_single env v h fs hwf
+
+/-- C20.3b  Several variables, applied successively (repeats allowed), each with its own step: the
+iterated exact finite difference of the term's value is the product of the steps times the value
+of the iterated derivative (so `0` as soon as a variable is missing or used up). -/
+theorem finite_difference_many (env : String → R) (fs : List Factor) (hwf : Term.WF fs)
+    (vhs : List (String × R)) :
+    fdMany fs env vhs = (vhs.map (·.2)).prod * evalD env (dMany (some fs) (vhs.map (·.1))) :=
+  fdMany_eq fs hwf vhs env
 
 end semantics
 
-/-- C20.2b  Partial derivatives commute (as term denotations: same factors in the same order). -/
+/-- C20.3c  Partial derivatives commute (as term denotations: same factors in the same order). -/
 theorem diff_commutes (fs : List Factor) (u v : String) :
-    dMany (some fs) [u, v] = dMany (some fs) [v, u] := by
-  simp only [dMany, dFactors]
-  by_cases hu : fs.any (fun f => f.expr == u) = true <;>
-  by_cases hv : fs.any (fun f => f.expr == v) = true
-  · simp only [hu, hv, if_true, dMany, dFactors]
-    have e1 : (fs.filter (fun f => !(f.expr == u))).any (fun f => f.expr == v)
-        = (fs.filter (fun f => !(f.expr == v))).any (fun f => f.expr == u) := by
-      by_cases huv : u = v
-      · subst huv; rfl
-      · have l : (fs.filter (fun f => !(f.expr == u))).any (fun f => f.expr == v) = true := by
-          rw [List.any_eq_true] at hv ⊢
-          obtain ⟨x, hx, hxv⟩ := hv
-          refine ⟨x, List.mem_filter.mpr ⟨hx, ?_⟩, hxv⟩
-          have : x.expr = v := by simpa using hxv
-          simp [this, Ne.symm huv]
-        have r : (fs.filter (fun f => !(f.expr == v))).any (fun f => f.expr == u) = true := by
-          rw [List.any_eq_true] at hu ⊢
-          obtain ⟨x, hx, hxu⟩ := hu
-          refine ⟨x, List.mem_filter.mpr ⟨hx, ?_⟩, hxu⟩
-          have : x.expr = u := by simpa using hxu
-          simp [this, huv]
-        rw [l, r]
-    rw [e1]
-    split
-    · congr 1
-      rw [List.filter_filter, List.filter_filter]
-      exact congrArg some (List.filter_congr (fun x _ => Bool.and_comm _ _))
-    · rfl
-  · have : (fs.filter (fun f => !(f.expr == u))).any (fun f => f.expr == v) = false := by
-      rw [Bool.eq_false_iff]; intro hc
-      rw [List.any_eq_true] at hc
-      obtain ⟨x, hx, hxv⟩ := hc
-      exact hv (List.any_eq_true.mpr ⟨x, (List.mem_filter.mp hx).1, hxv⟩)
-    simp [hu, hv, dMany, dFactors, this]
-  · have : (fs.filter (fun f => !(f.expr == v))).any (fun f => f.expr == u) = false := by
-      rw [Bool.eq_false_iff]; intro hc
-      rw [List.any_eq_true] at hc
-      obtain ⟨x, hx, hxu⟩ := hc
-      exact hu (List.any_eq_true.mpr ⟨x, (List.mem_filter.mp hx).1, hxu⟩)
-    simp [hu, hv, dMany, dFactors, this]
-  · simp [hu, hv, dMany]
+    dMany (some fs) [u, v] = dMany (some fs) [v, u] :=
+  dMany_perm (List.Perm.swap v u []) (some fs)
+
+/-- C20.3d  … for any number of variables: the result depends on the multiset of variables only. -/
+theorem diff_commutes_any_order (fs : List Factor) (vs ws : List String) (p : vs.Perm ws) :
+    dMany (some fs) vs = dMany (some fs) ws :=
+  dMany_perm p (some fs)
+
+/-! ## 4. Materialisation: the columns of a numeric formula and of its derivative -/
+
+/-- C20.4a  The C02 model of `_build_model_matrix`, run on a numeric factor cache (literals are
+numbers, every other factor one numeric column) with or without rank reduction, never fails and
+produces, term by term in formula order, exactly the reference columns `specCols`: no column for a
+term without factors; with rank reduction no column for a term whose variable factors are those of
+an earlier non-zero-scaled term; otherwise ONE column holding, row by row, the product of the
+term's factor values. -/
+theorem numeric_matrix_refines (env : Env) (n : Nat) (efr : Bool) (ts : List Term)
+    (h : ∀ t ∈ ts, Term.WF t ∧ Covers env n t) :
+    ∃ rs, materialize env ts efr n = .ok rs ∧ rs.map (·.term) = ts.map exprs ∧
+      rs.map (fun r => r.cols.map (·.col)) = specCols env n efr [] ts :=
+  materialize_numeric env n efr ts h
+
+/-- C20.4b  One term of a numeric formula: if (with rank reduction on) no earlier non-zero-scaled
+term has the same set of variable factors, the term has exactly one column, and it holds row by
+row the product of the term's factor values (`termCol`). -/
+theorem numeric_term_column (env : Env) (n : Nat) (efr : Bool) (ts : List Term)
+    (h : ∀ t ∈ ts, Term.WF t ∧ Covers env n t) (j : Nat) (hj : j < ts.length) (hne : ts[j] ≠ [])
+    (hdist : efr = true → ∀ i (hi : i < j), scaleT env (ts[i]'(by omega)) ≠ 0 →
+      ¬ (vars env (ts[i]'(by omega))).Perm (vars env ts[j])) :
+    ∃ rs, materialize env ts efr n = .ok rs ∧
+      (rs[j]?.map (fun r => r.cols.map (·.col))) = some [termCol env n ts[j]] := by
+  obtain ⟨rs, h1, _, h3⟩ := materialize_numeric env n efr ts h
+  refine ⟨rs, h1, ?_⟩
+  have hg := specCols_getElem env n efr ts [] j hj hne (by intro _ s hs; cases hs)
+    (by
+      intro hefr i hi hsc
+      cases hq : ST.eq (stOf env (ts[i]'(by omega))) (stOf env ts[j]) with
+      | false => rfl
+      | true => exact absurd (stEq_vars hq) (hdist hefr i hi hsc))
+  rw [← h3] at hg
+  simpa [List.getElem?_map] using hg
+
+/-- C20.4c  THE SECOND CLAUSE. Take a formula `f` over numeric factors (distinct factors per term,
+every factor evaluated, the literals `0`/`1` evaluating to 0/1) and any tuple `wrt`. Materialise
+its derivative `dTerms f wrt` with the C02 model (rank reduction on or off). Then every term `j`
+whose derivative is not zero — provided, with rank reduction on, that no earlier non-zero-scaled
+term of the derivative has the same set of variable factors — has exactly ONE column `c`, and in
+every row `r`, for every choice of steps `hs` (one per variable),
+
+    (iterated exact finite difference of the ORIGINAL term's value with steps hs) = (∏ hs) · c[r].
+
+With all steps 1 the column IS the exact finite difference of the original term's column
+(`termCol env n f[j]`, which by C20.4b is the original term's column in the original matrix). -/
+theorem derivative_columns_are_finite_differences (env : Env) (n : Nat) (efr : Bool) (f : List Term)
+    (wrt : List String) (hl : HasLiterals env) (hf : ∀ t ∈ f, Term.WF t ∧ Covers env n t)
+    (j : Nat) (hj : j < f.length) (g : List Factor) (hg : dMany (some f[j]) wrt = some g)
+    (hdist : efr = true → ∀ i (hi : i < j),
+      scaleT env (render (dMany (some (f[i]'(by omega))) wrt)) ≠ 0 →
+      ¬ (vars env (render (dMany (some (f[i]'(by omega))) wrt))).Perm (vars env (render (some g)))) :
+    ∃ rs c, materialize env (dTerms f wrt) efr n = .ok rs ∧ rs.length = f.length ∧
+      (rs[j]?.map (fun r => r.cols.map (·.col))) = some [c] ∧ c.length = n ∧
+      ∀ r, r < n → ∀ hs : List Rat, hs.length = wrt.length →
+        fdMany f[j] (rowEnv env r) (wrt.zip hs) = hs.prod * c.getD r 0 := by
+  have hd : ∀ t ∈ dTerms f wrt, Term.WF t ∧ Covers env n t := by
+    intro t ht
+    obtain ⟨t0, ht0, rfl⟩ := List.mem_map.1 ht
+    exact ⟨render_wf t0 wrt (hf t0 ht0).1, render_covers env n t0 wrt hl (hf t0 ht0).2⟩
+  have hjd : j < (dTerms f wrt).length := by simpa [dTerms] using hj
+  have hdj : (dTerms f wrt)[j] = render (some g) := by simp [dTerms, hg]
+  have hdi : ∀ i (hi : i < j), (dTerms f wrt)[i]'(by omega) = render (dMany (some (f[i]'(by omega))) wrt) := by
+    intro i hi; simp [dTerms]
+  obtain ⟨rs, h1, h2⟩ := numeric_term_column env n efr (dTerms f wrt) hd j hjd
+    (by rw [hdj]; exact render_ne_nil _)
+    (by
+      intro hefr i hi hsc
+      rw [hdi i hi] at hsc ⊢
+      rw [hdj]
+      exact hdist hefr i hi hsc)
+  obtain ⟨rs', h1', h3', _⟩ := materialize_numeric env n efr (dTerms f wrt) hd
+  have hrs : rs' = rs := by rw [h1] at h1'; exact (Except.ok.inj h1').symm
+  subst hrs
+  refine ⟨rs', termCol env n (render (some g)), h1, ?_, by rw [← hdj]; exact h2, by simp [termCol], ?_⟩
+  · have := congrArg List.length h3'
+    simpa [dTerms] using this
+  · intro r hr hs hlen
+    have hwf := (hf f[j] (List.getElem_mem hj)).1
+    have key := fdMany_eq (R := Rat) f[j] hwf (wrt.zip hs) (rowEnv env r)
+    have h1z : (wrt.zip hs).map (·.1) = wrt := by
+      rw [List.map_fst_zip]; omega
+    have h2z : (wrt.zip hs).map (·.2) = hs := by
+      rw [List.map_snd_zip]; omega
+    rw [h1z, h2z, hg] at key
+    rw [key]
+    simp [termCol, List.getD_eq_getElem?_getD, hr, evalProd_render env r hl]
+
+/-- C20.4d  The same statement with the side condition on the ORIGINAL formula: if (with rank
+reduction on) no two terms of `f` have the same set of variable factors — what the parser
+guarantees: it merges such terms — then no side condition on the derivative is needed: every term
+with a non-zero derivative materialises to exactly one column, the exact finite difference. -/
+theorem derivative_columns_of_distinct_terms (env : Env) (n : Nat) (efr : Bool) (f : List Term)
+    (wrt : List String) (hl : HasLiterals env) (hf : ∀ t ∈ f, Term.WF t ∧ Covers env n t)
+    (hdist : efr = true → ∀ i j (hi : i < j) (hj : j < f.length),
+      ¬ (vars env (f[i]'(by omega))).Perm (vars env f[j]))
+    (j : Nat) (hj : j < f.length) (g : List Factor) (hg : dMany (some f[j]) wrt = some g) :
+    ∃ rs c, materialize env (dTerms f wrt) efr n = .ok rs ∧ rs.length = f.length ∧
+      (rs[j]?.map (fun r => r.cols.map (·.col))) = some [c] ∧ c.length = n ∧
+      ∀ r, r < n → ∀ hs : List Rat, hs.length = wrt.length →
+        fdMany f[j] (rowEnv env r) (wrt.zip hs) = hs.prod * c.getD r 0 := by
+  apply derivative_columns_are_finite_differences env n efr f wrt hl hf j hj g hg
+  intro hefr i hi hsc hperm
+  cases hdi : dMany (some (f[i]'(by omega))) wrt with
+  | none =>
+    rw [hdi] at hsc
+    exact hsc (scaleT_zero env hl)
+  | some gi =>
+    rw [hdi, vars_render env hl, vars_render env hl] at hperm
+    obtain ⟨_, hmi, hgi⟩ := dMany_some wrt _ gi hdi
+    obtain ⟨_, hmj, hgj⟩ := dMany_some wrt _ g hg
+    rw [hgi, hgj, vars_filter env _ (fun e => !(wrt.contains e)),
+      vars_filter env _ (fun e => !(wrt.contains e))] at hperm
+    have hwi := (hf _ (List.getElem_mem (by omega : i < f.length))).1
+    have hwj := (hf _ (List.getElem_mem hj)).1
+    exact hdist hefr i j hi hj (vars_perm_of_removed env wrt _ _ hwi hwj hmi hmj hperm)
+
+/-- non-vacuity for C20.4: the formula `a:b + 2:a + c` on three rows, differentiated w.r.t. `a`
+(derivative `b + 2 + 0`), rank reduction on: every hypothesis holds and the columns are computed
+(the zero term comes after a non-zero constant term and, with rank reduction, gets no column:
+the clause speaks about non-zero derivative terms only) -/
+def demoEnv : Env :=
+  [("0", .const 0), ("1", .const 1), ("2", .const 2), ("a", .col [1, 2, 3]), ("b", .col [4, 5, 7]), ("c", .col [1, 0, 1])]
+def demoF : List Term := [[⟨"a", .lookup⟩, ⟨"b", .lookup⟩], [⟨"2", .literal⟩, ⟨"a", .lookup⟩], [⟨"c", .lookup⟩]]
+
+example : HasLiterals demoEnv ∧ (∀ t ∈ demoF, Term.WF t) := by
+  refine ⟨⟨by decide, by decide⟩, by decide⟩
+
+example : ∀ t ∈ demoF, Covers demoEnv 3 t := by
+  intro t ht f hf
+  simp only [demoF, List.mem_cons, List.not_mem_nil, or_false] at ht
+  rcases ht with rfl | rfl | rfl <;> simp only [List.mem_cons, List.not_mem_nil, or_false] at hf
+  · rcases hf with rfl | rfl
+    · exact ⟨.col [1, 2, 3], by decide, by intro c hc; cases hc; rfl⟩
+    · exact ⟨.col [4, 5, 7], by decide, by intro c hc; cases hc; rfl⟩
+  · rcases hf with rfl | rfl
+    · exact ⟨.const 2, by decide, by intro c hc; cases hc⟩
+    · exact ⟨.col [1, 2, 3], by decide, by intro c hc; cases hc; rfl⟩
+  · subst hf
+    exact ⟨.col [1, 0, 1], by decide, by intro c hc; cases hc; rfl⟩
+
+/-- the distinctness hypothesis of C20.4d on the demo formula: the variable-factor sets are
+`{a,b}`, `{a}`, `{c}` -/
+example : demoF.map (vars demoEnv) = [["a", "b"], ["a"], ["c"]] := by decide
+
+example : (demoF.map (vars demoEnv)).Pairwise (fun a b => ¬ a.Perm b) := by decide
+
+example : dTerms demoF ["a"] = [[⟨"b", .lookup⟩], [⟨"2", .literal⟩], [litZero]] ∧
+    ((materialize demoEnv (dTerms demoF ["a"]) true 3).toOption.map
+      (·.map (fun r => r.cols.map (fun e => (e.name, e.col))))) =
+      some [[("b", [4, 5, 7])], [("Intercept", [2, 2, 2])], []] := by
+  refine ⟨by decide, by decide +kernel⟩
 
 /-- non-vacuity: a concrete three-factor term satisfies the hypotheses and differentiates as expected -/
 example : Term.WF [⟨"a", .lookup⟩, ⟨"b", .lookup⟩, ⟨"2", .literal⟩] ∧
